@@ -26,7 +26,8 @@ TASK_CLASSES = {"TaskStartAt", "TaskStartAfter", "TaskEndAt", "TaskEndBefore", "
                 "ScheduleNTasksInTimeIntervals", "OptionalTaskForceSchedule", "OptionalTaskConditionSchedule",
                 "OptionalTasksDependency", "ForceScheduleNOptionalTasks"}
 RES_CLASSES = {"ResourceUnavailable", "WorkLoad", "ResourceNonDelay", "ResourceTasksDistance", "SameWorkers",
-               "DistinctWorkers", "ResourceInterrupted", "ResourcePeriodicallyUnavailable"}
+               "DistinctWorkers", "ResourceInterrupted", "ResourcePeriodicallyUnavailable",
+               "ResourcePeriodicallyInterrupted"}
 FOL_CLASSES = {"Not", "Or", "And", "Xor", "Implies", "IfThenElse", "ConstraintFromExpression",
                "ForceApplyNOptionalConstraints"}
 
@@ -61,7 +62,7 @@ PROPS = {
         "theorems": ["C10_connective_raw", "C10_connective", "C10_optional", "C10_mandatory", "C10_forceApplyN",
                      "C10_no_leak", "C10_constraint_part", "C10_operands_marked", "C10_operand_not_enforced", "C10_spec_sound"],
         "modules": ["SpecSound"],
-        "profiles": [("fol", 0.8), ("all", 0.2)],
+        "profiles": [("fol", 0.5), ("focus_fol", 0.3), ("all", 0.2)],
         "relevant": lambda o: owner_in(o, (), FOL_CLASSES) or o.startswith("constr:"),
         "spec": "C10",
         "exact": True,
@@ -78,7 +79,7 @@ PROPS = {
     "C03": {
         "theorems": ["C03_raw_sound", "C03_task_constraints", "C03_optional_constraints", "C03_scheduleN_lower", "C03_scheduleN_enforced", "C03_spec_sound"],
         "modules": ["SpecSound"],
-        "profiles": [("taskc", 0.7), ("all", 0.3)],
+        "profiles": [("taskc", 0.45), ("focus_taskc", 0.35), ("all", 0.2)],
         "relevant": lambda o: owner_in(o, (), TASK_CLASSES),
         "spec": "C03",
         "nontrivial": lambda s: sum(1 for d in s if d["op"] == "constraint") >= 2,
@@ -94,24 +95,28 @@ PROPS = {
     "C04": {
         "theorems": ["C04_raw_sound", "C04_resource_constraints", "workloadOne_sound", "sortNoDup_sound", "C04_periodic_own_period", "C04_periodic_enforced", "C04_spec_sound"],
         "modules": ["SpecSound"],
-        "profiles": [("resc", 0.8), ("all", 0.2)],
+        "profiles": [("resc", 0.45), ("focus_resc", 0.4), ("all", 0.15)],
         "relevant": lambda o: owner_in(o, (), RES_CLASSES),
         "spec": "C04",
         "nontrivial": lambda s: any(d["op"] == "constraint" and d["c"][0] in
-                                    ("unavailable", "workload", "nonDelay", "distance", "sameWorkers", "distinctWorkers") for d in s),
+                                    ("unavailable", "workload", "nonDelay", "distance", "sameWorkers", "distinctWorkers",
+                                     "interrupted", "periodicallyUnavailable", "periodicallyInterrupted") for d in s),
         "rule": "scripts of the 'resc' profile: ResourceUnavailable / WorkLoad (exact, min, max; bounds 0..len+1) / "
-                "ResourceNonDelay / ResourceTasksDistance (with and without intervals, three modes) / Same- and "
-                "DistinctWorkers on plain and cumulative workers, direct and selected assignments, declared before and "
-                "after further assignments; non-trivial = at least one resource constraint; distinct = distinct script text",
+                "ResourceNonDelay / ResourceTasksDistance (with and without intervals, three modes) / ResourceInterrupted / "
+                "ResourcePeriodicallyUnavailable / ResourcePeriodicallyInterrupted (periods 5, 7, 10; 1-2 windows inside the "
+                "period; start / offset / end masks) / Same- and DistinctWorkers on plain and cumulative workers, fixed-, zero- "
+                "and variable-duration tasks, direct and selected assignments, declared before and after further assignments "
+                "(the generator draws assigned resources, and resources with two busy intervals for the gap constraints; 6 % "
+                "ill-formed); non-trivial = at least one resource constraint; distinct = distinct script text",
         "assumptions": ["resource-constraint formulas emitted by the real code are those of the model (ENC) or equivalent (z3)",
-                        "ResourceInterrupted, ResourcePeriodicallyUnavailable, ResourcePeriodicallyInterrupted are not modelled "
-                        "yet: scripts with them are not generated and this part of C04 is not decided (see DESIGN.md)"],
+                        "periodic classes: the window of the period the busy interval starts in (F13, F39: the next period's "
+                        "window can be overlapped); ResourceTasksDistance / NonDelay have a theorem but no SEM twin"],
         "n": {"quick": 250, "thorough": 4000},
     },
     "C08": {
         "theorems": ["C08_body_sound", "C08_indicator_value", "C08_target_bounds", "linear_trapezoid", "C08_spec_sound"],
         "modules": ["SpecSound"],
-        "profiles": [("ind", 0.7), ("obj", 0.3)],
+        "profiles": [("ind", 0.4), ("focus_ind", 0.35), ("obj", 0.25)],
         "relevant": lambda o: owner_in(o, ("indicator:",), {"IndicatorTarget", "IndicatorBounds"}),
         "spec": "C08",
         "nontrivial": lambda s: any(d["op"] == "indicator" for d in s),
